@@ -276,6 +276,9 @@ def blocks_to_bytes(
                     dis.opmap[instruction.name] if i == 0 else dis.EXTENDED_ARG
                 )
                 bytes_.append((arg_value >> (8 * i)) & 0xFF)
+            # The EXTENDED_ARG code units of an instruction are on the same line
+            for extended_offset in range(offset + 2, len(bytes_), 2):
+                line_mapping.offset_to_line[extended_offset] = instruction.line_number
 
     return (
         bytes(bytes_),
